@@ -141,6 +141,28 @@ func genDCPkg(t *rapid.T, idx int) dcPkg {
 		}
 		p.Types = append(p.Types, ty)
 	}
+	// a struct that depends on every earlier struct / scalar / map type at once (several local dependencies, tagged or not)
+	if len(structs)+len(scalars)+len(maps) >= 2 && rapid.IntRange(0, 2).Draw(t, "fanout") == 0 {
+		ty := dcType{Name: fmt.Sprintf("T%d", n), Kind: "struct", Tagged: !p.PkgTag}
+		for _, r := range ifaces {
+			// an interface-typed field ahead of the struct dependencies
+			fieldN++
+			ty.Fields = append(ty.Fields, dcField{Name: fmt.Sprintf("F%d", fieldN), Kind: "iface", Ref: r})
+		}
+		for _, r := range structs {
+			fieldN++
+			ty.Fields = append(ty.Fields, dcField{Name: fmt.Sprintf("F%d", fieldN), Kind: "struct", Ref: r})
+		}
+		for _, r := range scalars {
+			fieldN++
+			ty.Fields = append(ty.Fields, dcField{Name: fmt.Sprintf("F%d", fieldN), Kind: "kind", Ref: r})
+		}
+		for _, r := range maps {
+			fieldN++
+			ty.Fields = append(ty.Fields, dcField{Name: fmt.Sprintf("F%d", fieldN), Kind: "labels", Ref: r})
+		}
+		p.Types = append(p.Types, ty)
+	}
 	// without a package tag at least one struct must be tagged, otherwise nothing is generated
 	if !p.PkgTag {
 		any := false
@@ -279,6 +301,8 @@ func (p dcPkg) generated() map[string]bool {
 type litCtx struct {
 	p *dcPkg
 	n int
+	// empty: every slice and map is empty but not nil
+	empty bool
 }
 
 func (l *litCtx) next() int { l.n++; return l.n }
@@ -286,6 +310,24 @@ func (l *litCtx) next() int { l.n++; return l.n }
 // lit prints a non-trivial literal of the field's type; every container is non-empty.
 func (l *litCtx) field(f dcField) string {
 	k := l.next()
+	if l.empty {
+		switch f.Kind {
+		case "ints":
+			return "[]int{}"
+		case "strings":
+			return "[]string{}"
+		case "bytes":
+			return "[]byte{}"
+		case "mapsi":
+			return "map[string]int{}"
+		case "mapis":
+			return "map[int]string{}"
+		case "mapss":
+			return "map[string]string{}"
+		case "labels":
+			return f.Ref + "{}"
+		}
+	}
 	switch f.Kind {
 	case "int":
 		return fmt.Sprint(k)
@@ -446,6 +488,30 @@ func (p dcPkg) testSource() string {
 					}
 				}
 				fmt.Fprintf(b, "\t\tif !reflect.DeepEqual(orig, snapshot) {\n\t\t\tt.Errorf(\"VT-FAIL mutating containers of the copy of %s changed the original: %%#v\", orig)\n\t\t}\n", name)
+				// the same with containers that are empty but not nil: inserting into the copy must not show in the original
+				if len(cs) > 0 {
+					le := &litCtx{p: &p, empty: true}
+					fmt.Fprintf(b, "\t\torigE := %s\n", le.value(ty, arg))
+					le = &litCtx{p: &p, empty: true}
+					fmt.Fprintf(b, "\t\tsnapshotE := %s\n", le.value(ty, arg))
+					b.WriteString("\t\tcpE := (&origE).DeepCopy()\n")
+					fmt.Fprintf(b, "\t\tif cpE == nil || !reflect.DeepEqual(*cpE, origE) {\n\t\t\tt.Fatalf(\"VT-FAIL copy of %s with empty, non-nil containers differs: %%#v vs %%#v\", cpE, origE)\n\t\t}\n", name)
+					for _, c := range cs {
+						path := strings.Replace(c[0], ".", "cpE.", 1)
+						_ = path
+						switch c[1] {
+						case "mapsi":
+							fmt.Fprintf(b, "\t\tcpE%s[\"inserted\"] = 1\n", c[0])
+						case "mapis":
+							fmt.Fprintf(b, "\t\tcpE%s[7] = \"inserted\"\n", c[0])
+						case "mapss":
+							fmt.Fprintf(b, "\t\tcpE%s[\"inserted\"] = \"x\"\n", c[0])
+						case "ints":
+							fmt.Fprintf(b, "\t\tcpE%s = append(cpE%s, 1)\n", c[0], c[0])
+						}
+					}
+					fmt.Fprintf(b, "\t\tif !reflect.DeepEqual(origE, snapshotE) {\n\t\t\tt.Errorf(\"VT-FAIL inserting into the empty containers of the copy of %s changed the original: %%#v\", origE)\n\t\t}\n", name)
+				}
 			} else {
 				b.WriteString("\t\t_ = snapshot\n")
 			}
@@ -565,6 +631,15 @@ func c17Features(c c17Case) []string {
 			}
 			for _, f := range ty.Fields {
 				fs["field-"+f.Kind] = true
+				deps := 0
+				for _, f2 := range ty.Fields {
+					if f2.Kind == "struct" || f2.Kind == "kind" || f2.Kind == "labels" {
+						deps++
+					}
+				}
+				if deps >= 2 {
+					fs["several-local-dependencies"] = true
+				}
 				if !p.PkgTag && (f.Kind == "struct" || f.Kind == "kind" || f.Kind == "labels" || f.Kind == "embed") {
 					if dep := p.typeByName(f.Ref); dep != nil && !dep.Tagged && (ty.Tagged) {
 						fs["untagged-dependency"] = true
